@@ -234,9 +234,21 @@ def run_case(ctx, idx):
     nan_appends = False
     try:
         n = gd.event_counts(rng, small=True)
+        big = idx % 64 == 5
         names = list(rng.choice([f for f in gd.FLOAT_SCALARS if not f.startswith("ml_")],
-                                int(rng.integers(2, 6)), replace=False)) + ["deform"]
+                                1 if big else int(rng.integers(2, 6)), replace=False)) + ["deform"]
+        if big:
+            # a long measurement: more events than any block-wise summary may use at once,
+            # NaN concentrated in a part of the events
+            n = int(rng.choice([65537, 70000, 131073]))
+            ctx.count("long_measurements")
         data = {str(f): nan_scalar(rng, n) for f in set(names)}
+        if big:
+            for f in data:
+                if data[f].dtype.kind == "f":
+                    a, b = sorted(int(v) for v in rng.integers(0, n, 2))
+                    data[f] = data[f] + np.linspace(0, 50, n)       # values drift over time
+                    data[f][a:b] = np.nan
         if rng.random() < 0.4:
             data["fl1_max"] = rng.integers(0, 5000, n)
         if rng.random() < 0.25:
@@ -255,7 +267,10 @@ def run_case(ctx, idx):
             with dclab.RTDCWriter(p0, mode="reset") as hw:
                 hw.store_metadata(meta)
                 for f, arr in data.items():
-                    parts = composition(rng, n)
+                    parts = composition(rng, n) if not big else \
+                        [(0, n // 3), (n // 3, n)][:int(rng.integers(1, 3))]
+                    if big and len(parts) == 1:
+                        parts = [(0, n)]
                     for a, b in parts:
                         hw.store_feature(f, arr[a:b])
                     if len(parts) > 1 and arr.dtype.kind == "f" and np.isnan(arr).any():
@@ -275,9 +290,11 @@ def run_case(ctx, idx):
         cur = p0
         with dclab.new_dataset(cur) as ds:
             query_all(ctx, ds, "written", hist)
-        for step in range(int(rng.integers(0, 4))):
+        for step in range(2 if big else int(rng.integers(0, 4))):
             op = str(rng.choice(["join", "compress", "repack", "condense", "export", "basin",
                                  "hierarchy", "superset", "export_named"]))
+            if big:
+                op = ["hierarchy", str(rng.choice(["export", "compress", "condense"]))][step]
             out = tmp / f"s{step}.rtdc"
             try:
                 if op == "join":
